@@ -14,5 +14,5 @@ c13hist.fresh   : C13 -- serial (child processes): histories on one engine in th
 """
 PROPS = {
     "C15": {"families": [fam("c15.held", 400, 4000)]},
-    "C13": {"families": [fam("c15.held", 400, 4000), fam("c13hist.fresh", 14, 60, seeds=2)]},
+    "C13": {"families": [fam("c15.held", 400, 4000), fam("c13hist.fresh", 60, 300, seeds=2)]},
 }
